@@ -358,6 +358,28 @@ func (w *World) streamScript(a *Actor, st drpc.Stream, k int, side byte, sub int
 		other = 'c'
 	}
 	var sseq uint32
+	// messages this actor has sent and still holds (an application may keep or re-send them): the library must
+	// never write into their memory
+	type heldMsg struct {
+		b   []byte
+		seq uint32
+	}
+	var held []heldMsg
+	var recvd [][]byte
+	checkHeld := func() {
+		for _, h := range held {
+			if err := CheckPayload(h.b, uint32(k)<<8|uint32(sub), side, h.seq); err != nil {
+				w.Violate("rpc %d side %c: a message the sender still holds (seq %d) was overwritten: %v", k, side, h.seq, err)
+			}
+		}
+		for _, b := range recvd {
+			// what RawRecv handed out is the receiver's: it must stay what it was when later data arrives
+			if _, _, _, ok := PayloadInfo(b); !ok {
+				w.Violate("rpc %d side %c: a message obtained from RawRecv changed afterwards", k, side)
+			}
+		}
+	}
+	defer checkHeld()
 	recvOne := func() error {
 		var b []byte
 		r := w.beginOp(a, "recv", k)
@@ -366,6 +388,10 @@ func (w *World) streamScript(a *Actor, st drpc.Stream, k int, side byte, sub int
 			b, err = rs.RawRecv()
 			if err == nil {
 				w.noteDelivery(b)
+				if recvd = append(recvd, b); len(recvd) > 4 {
+					recvd = recvd[1:]
+				}
+				checkHeld()
 			}
 		} else {
 			err = st.MsgRecv(&b, w.Enc)
@@ -397,6 +423,11 @@ func (w *World) streamScript(a *Actor, st drpc.Stream, k int, side byte, sub int
 			}
 			r.AcceptedAt = w.outOf(side).Total()
 			w.endOp(r, err)
+			held = append(held, heldMsg{p, sseq - 1})
+			if len(held) > 4 {
+				held = held[1:]
+			}
+			checkHeld()
 			a.logf("send(%d) -> %v", s.Size, err)
 		case "recv":
 			err := recvOne()
